@@ -68,7 +68,7 @@ m = {
  },
  "engines": [
   {"name": "seqx", "path": "harness/seqx", "serves_properties": ["C01", "C03", "C04", "C08", "C09", "C10", "C11"], "kind_free_text": "explicit-state BFS over handle histories; each transition re-executes the history on the real crate under the arena allocator and compares with a reference model"},
-  {"name": "gridx", "path": "harness/gridx", "serves_properties": ["C03", "C08", "C05", "C06", "C07", "C10", "C11", "C12", "C14", "C15", "C16", "C17"], "kind_free_text": "exhaustive enumeration of finite shape / input / fault grids, each cell executed on the real crate under the arena allocator"},
+  {"name": "gridx", "path": "harness/gridx", "serves_properties": ["C03", "C08", "C09", "C05", "C06", "C07", "C10", "C11", "C12", "C14", "C15", "C16", "C17"], "kind_free_text": "exhaustive enumeration of finite shape / input / fault grids, each cell executed on the real crate under the arena allocator"},
   {"name": "typex", "path": "lib/typex.py", "serves_properties": ["C13"], "kind_free_text": "generator of client probe crates + cargo check driver; rustc decides each cell"},
   {"name": "mwalk", "path": "harnessm", "serves_properties": ["C01", "C08"], "kind_free_text": "every operation sequence up to depth 3/5 over every handle kind, re-executed from scratch on the real crate by the Miri interpreter (aliasing-model checks off), plus a small reference model; 16 shards"},
   {"name": "typex-api", "path": "lib/typex.py", "serves_properties": ["C01", "C03", "C04", "C06", "C08", "C09", "C10", "C12", "C15"], "kind_free_text": "generated client functions that rustc must reject because a bound, receiver or by-value parameter of the real API forbids them, each with a positive control"},
@@ -91,6 +91,8 @@ for p in props:
             "C06": " Added later: lengths 2^k-1, 2^k, 2^k+1 up to 1025 (quick) / 4097 (thorough; 32769 for Copy slices), sized values of 4 KiB / 64 KiB / 256 KiB, every constructor also executed while the thread is unwinding from an unrelated panic; Copy bounds of the bitwise constructors decided by rustc (second stage: element-wise clones).",
             "C07": " Added later: payload Clone impls that re-entrantly release or add co-owners, panicking destructors (also inside make_mut and inside a with_arc_mut replacement), panicking serde callbacks, iterator faults at lengths around 128 / 1024 / 4096, every constructor and the make_mut family while the thread is already unwinding.",
             "C08": " Added later: the Miri walk over all handle kinds for a 32-bit target (i686); conservation of the old allocation under loom; Clone bounds and &mut receivers decided by rustc.",
+            "C09": " Added later: the unwrap rows of the degenerate-payload / big-count grid (counts such as 2^32 + 1 with two real owners).",
+            "C02": " Added later: the same races with 18 / 40 extra owners held by the main thread (count-dependent paths).",
             "C10": " Added later: header + zero-sized-element slices with isize::MAX-1 .. usize::MAX elements converted between fat and thin.",
             "C14": " Added later: recorded lengths at isize::MAX, 2^63 and usize::MAX.",
             "C15": " Added later: zero-sized headers and elements that have destructors.",
